@@ -595,22 +595,21 @@ theorem stored_frame_roundtrip (codec : Option Codec) (hcodec : ∀ c, codec = s
 pyramid, which is such a segmentation of its own).  The `R × C` matrix is cut into `tr × tc` tiles in the row-major order of
 `compute_tile_positions_per_frame`, edge tiles padded with background (`tileMask`); the tiles are the planes of the frame loop,
 so everything above applies to them (types, dtype classes, empty tiles omitted, any frame size mod 8, native or encapsulated).
-If the matrix passes the constructor's pixel checks and the object is built, then for every pixel (r, c) of the matrix and
-every described segment, the value found in the frame of the tile that covers the pixel -- tile number
+If the object is built (`buildTiled … = .ok o`, which by (10g) is the constructor in the source's own order; in particular
+the matrix passed its pixel checks), then for every pixel (r, c) of the matrix and every described segment, the value found in the frame of the tile that covers the pixel -- tile number
 `(r / tr) * ⌈C / tc⌉ + c / tc`, position `(r % tr) * tc + c % tc`, which is where `get_total_pixel_matrix` takes it from --
 is the property's expectation for that pixel.  (The reassembly itself, for every region and frame order, is C04's
 `region_assembly` / `tile_then_read`.) -/
 theorem C01_roundtrip_tiled (codec : Option Codec) (hcodec : ∀ c, codec = some c → ∀ x, c.dec (c.enc x) = x)
-    (R C tr tc : Nat) (htr : 1 ≤ tr) (htc : 1 ≤ tc) (t : SegType) (segs : List Nat) (mfv : Nat) (omt : Bool) (m : Mask)
-    (arr : Mask) (ov : Overlap) (hcm : castMask segs t m = .ok (arr, ov))
-    (o : SegObj) (hb : buildTiled codec R C tr tc t segs mfv omt m = .ok o) :
+    (R C tr tc : Nat) (hR : 1 ≤ R) (hC : 1 ≤ C) (htr : 1 ≤ tr) (htc : 1 ≤ tc) (t : SegType) (segs : List Nat) (mfv : Nat)
+    (omt : Bool) (m : Mask) (o : SegObj) (hb : buildTiled codec R C tr tc t segs mfv omt m = .ok o) :
     ∃ mpl out, m.plane? 0 = some mpl ∧
       readBySource codec o (List.range (tilesAlong R tr * tilesAlong C tc)) .assertEmpty = .ok out ∧
       ∀ j (hj : j < segs.length), ∃ e, expectedPlane t mfv j segs[j] mpl = some e ∧
         ∀ r c, r < R → c < C →
           ((out[(r / tr) * tilesAlong C tc + c / tc]?.bind (·[j]?)).bind (·[(r % tr) * tc + c % tc]?))
             = some (e.getD (r * C + c) 0) :=
-  tiled_roundtrip codec hcodec R C tr tc htr htc t segs mfv omt m arr ov hcm o hb
+  tiled_roundtrip' codec hcodec R C tr tc hR hC htr htc t segs mfv omt m o hb
 
 /-- (10e) **Bridge for (10d)** (T6, T7b): the tiles `tileMask` cuts by plain list arithmetic (`tilesOf`) are exactly what the
 source's own functions produce, as C04 models them from the regenerated expressions: `get_tile_array` (bounds, padding:
